@@ -742,11 +742,11 @@ Lemma parse_loop_clean fuel : forall t lr p, (length t < fuel)%nat -> clean (par
 Proof.
   induction fuel as [|f IH]; intros t lr p Hf; [lia|]. cbn [parse_loop].
   destruct t as [|b t']; [apply clean_ok|].
-  pose proof (lex_fuel (p_flags p) b t') as Hlf.
-  destruct (lex (p_flags p) b t') as [[tok rest]| |] eqn:Hl.
+  assert (Hlf : lex f (p_flags p) b t' <> OutOfFuel) by (apply lex_fuel; cbn [length] in Hf; lia).
+  destruct (lex f (p_flags p) b t') as [[tok rest]| |] eqn:Hl.
   - apply lex_lt in Hl. pose proof (act_clean tok lr p) as Ha. destruct (act tok lr p) as [p'| |]; try exact Ha.
     apply IH. cbn [length] in Hf. lia.
-  - split; [discriminate|]. intros H. injection H as ->. exact (lex_internal _ _ _ Hl).
+  - split; [discriminate|]. intros H. injection H as ->. exact (lex_internal _ _ _ _ Hl).
   - congruence.
 Qed.
 
